@@ -37,6 +37,8 @@ def check(run):
         b1 = run.borrow("C01", only=r"removeparam", why="a removeparam rule indexed under a token the URL lacks is never applied")
         run.guard("C14.via.C01.1.token-source", cfg, lambda: _C01.rule_removeparam_tokens(b1, F, cfg))
         run.guard("C14.via.C01.1.token-source/sources", cfg, lambda: _C01.rule_token_sources(b1, F, cfg))
+        b1a = run.borrow("C01", only=r"add_filter", why="a removeparam rule added to a live engine is filed under every one of its `$domain=` entries")
+        run.guard("C14.via.C01.1.token-source", cfg + "/add_filter", lambda: _C01.rule_store(b1a, F, cfg))
         b1c = run.borrow("C01", only=r"token-limit", why="a removeparam rule is filed under its parameter name: the parameter's token must be among the request tokens that are looked up (C01's premise of fewer than 127 URL tokens is inherited, not weakened)")
         run.guard("C14.via.C01.4.token-boundary", cfg, lambda: _C01.rule_boundary(b1c, F, cfg))
         b2 = run.borrow("C03", only=r"IS_REMOVEPARAM|negated-types-removed-last",
